@@ -30,13 +30,13 @@ func (c *vhSrvCtx) Err() error                        { return c.err }
 func (c *vhSrvCtx) Value(key interface{}) interface{} { return nil }
 
 type vhSrvConn struct {
-	request []byte
-	reads   int
-	closed  int
-	written [][]byte
+	request            []byte
+	reads              int
+	closed             int
+	written            [][]byte
 	staleWriteDeadline bool
-	srv     *Server // when set: Write checks the busy-flag protocol of the connection that owns this conn
-	idleAtWrite bool
+	srv                *Server // when set: Write checks the busy-flag protocol of the connection that owns this conn
+	idleAtWrite        bool
 }
 
 func (c *vhSrvConn) Read(p []byte) (int, error) {
@@ -60,11 +60,11 @@ func (c *vhSrvConn) Write(b []byte) (int, error) {
 	c.written = append(c.written, cp)
 	return len(b), nil
 }
-func (c *vhSrvConn) Close() error                       { c.closed++; return nil }
-func (c *vhSrvConn) LocalAddr() net.Addr                { return nil }
-func (c *vhSrvConn) RemoteAddr() net.Addr               { return nil }
-func (c *vhSrvConn) SetDeadline(t time.Time) error      { return nil }
-func (c *vhSrvConn) SetReadDeadline(t time.Time) error  { return nil }
+func (c *vhSrvConn) Close() error                      { c.closed++; return nil }
+func (c *vhSrvConn) LocalAddr() net.Addr               { return nil }
+func (c *vhSrvConn) RemoteAddr() net.Addr              { return nil }
+func (c *vhSrvConn) SetDeadline(t time.Time) error     { return nil }
+func (c *vhSrvConn) SetReadDeadline(t time.Time) error { return nil }
 func (c *vhSrvConn) SetWriteDeadline(t time.Time) error {
 	// the deadline for writing the reply must lie in the future at the moment the reply is about to be written
 	if !t.After(time.Now()) {
@@ -74,10 +74,10 @@ func (c *vhSrvConn) SetWriteDeadline(t time.Time) error {
 }
 
 type vhListener struct {
-	conns  []*vhSrvConn
-	next   int
-	closed int
-	before func() // runs just before Accept fails (lets the harness set the shutdown flag "concurrently")
+	conns    []*vhSrvConn
+	next     int
+	closed   int
+	before   func() // runs just before Accept fails (lets the harness set the shutdown flag "concurrently")
 	onAccept func() // runs at the start of every Accept call
 }
 
